@@ -250,6 +250,8 @@ fn run_one(text: &str) {
                 };
                 let count: usize = kv(&tok, "count").unwrap().parse().unwrap();
                 let v = floats(kv(&tok, "vec").unwrap());
+                let cand: Option<RoaringBitmap> =
+                    kv(&tok, "candidates").filter(|s| *s != "none").map(|s| RoaringBitmap::from_iter(ids(s)));
                 let r = std::panic::catch_unwind(std::panic::AssertUnwindSafe(|| {
                     let mut q = reader.nns(count);
                     if let Some(k) = kv(&tok, "search_k").filter(|s| *s != "none") {
@@ -258,7 +260,10 @@ fn run_one(text: &str) {
                     if let Some(k) = kv(&tok, "oversampling").filter(|s| *s != "none") {
                         q.oversampling(NonZeroUsize::new(k.parse().unwrap()).unwrap());
                     }
-                    q.by_vector(&wtxn, &v).map(|r| r.into_iter().map(|(i, _)| i).collect::<Vec<_>>())
+                    if let Some(c) = cand.as_ref() {
+                        q.candidates(c);
+                    }
+                    q.by_vector(&wtxn, &v)
                 }));
                 match r {
                     Err(_) => verdict.push("query panicked".into()),
@@ -269,6 +274,48 @@ fn run_one(text: &str) {
                             let min: usize = min.parse().unwrap();
                             if got.len() != min {
                                 verdict.push(format!("query returned {} results, expected {min}", got.len()));
+                            }
+                        }
+                        let check = kv(&tok, "check").unwrap_or("none");
+                        if check != "none" {
+                            // brute force over the stored items (Euclidean)
+                            let mut all: Vec<(u32, f32)> = vec![];
+                            for it in writer.iter(&wtxn).unwrap() {
+                                let (id, vec) = it.unwrap();
+                                if cand.as_ref().map_or(true, |c| c.contains(id)) {
+                                    let d: f32 = vec.iter().zip(v.iter()).map(|(a, b)| (a - b) * (a - b)).sum::<f32>().sqrt();
+                                    all.push((id, d));
+                                }
+                            }
+                            all.sort_by(|a, b| a.1.partial_cmp(&b.1).unwrap().then(a.0.cmp(&b.0)));
+                            if got.len() > count {
+                                verdict.push(format!("{} results for count {count}", got.len()));
+                            }
+                            let mut seen = BTreeSet::new();
+                            for (i, (id, d)) in got.iter().enumerate() {
+                                if !seen.insert(*id) {
+                                    verdict.push(format!("item {id} returned twice"));
+                                }
+                                match all.iter().find(|(j, _)| j == id) {
+                                    None => verdict.push(format!("item {id} is not a stored item inside the filter")),
+                                    Some((_, td)) => {
+                                        if (td - d).abs() > 1e-4 {
+                                            verdict.push(format!("item {id} reported at distance {d}, true distance {td}"));
+                                        }
+                                    }
+                                }
+                                if i > 0 && got[i - 1].1 > *d {
+                                    verdict.push("results are not ordered nearest first".into());
+                                }
+                            }
+                            if check == "exact" {
+                                let want: Vec<u32> = all.iter().take(count).map(|(i, _)| *i).collect();
+                                let have: Vec<u32> = got.iter().map(|(i, _)| *i).collect();
+                                let wd: Vec<f32> = all.iter().take(count).map(|(_, d)| *d).collect();
+                                let hd: Vec<f32> = got.iter().map(|(_, d)| *d).collect();
+                                if have.len() != want.len() || wd.iter().zip(hd.iter()).any(|(a, b)| (a - b).abs() > 1e-4) {
+                                    verdict.push(format!("exact search returned {have:?}, brute force says {want:?}"));
+                                }
                             }
                         }
                     }
